@@ -26,10 +26,15 @@ only the prefix is compared (counted as `prefix`).
 """
 import l1_trace
 from l1_trace import env_line, hx
-from sim import ticks
 import prudp_session as ps
 
 CHUNK_KINDS = ("stx", "sdrop", "sbreak")
+
+
+def ticks(t):
+    """virtual time in ticks of 2^-30 s. Hostile scripts may act at instants that are not on the grid (an un-quantised sleep): the
+    tick before such an instant is used — timers of the endpoint are set at grid instants, so the order of events is the same"""
+    return int(t * 1073741824.0 // 1)
 
 
 def is_stream(sess):
@@ -307,6 +312,117 @@ def compare(drv, sess, name="x", want_lines=False):
     res = {"ok": not diffs, "diffs": diffs, "lines": len(lines), "tx": {k: len(v) for k, v in real.items()}, "stream": True,
            "prefix": info["prefix"], "reads": sum(1 for l in lines if l.startswith("dgram ")),
            "events": {"deliver": sum(len(v) for v in re_["deliver"].values()), "eof": len(re_["eof"]), "hs": re_["hs"]}}
+    if want_lines:
+        res["trace"] = list(zip(lines, outs))
+    return res
+
+
+def build_server(sess, name="m"):
+    """op lines for the SERVER transport of a multi-client session over a stream transport (harness/multi_session.py and the
+    attack scenarios built on it): every stream connection to the server (victims, hostile third parties), every chunk the server
+    read from each, every application call of its handlers. Returns (lines, kinds, real, info) or None."""
+    spec = sess.spec
+    if spec.transport == "udp":
+        return None
+    l1_trace.sess_epoch[0] = sess.epoch
+    saddr = ps.SERVER
+    cfg = ps.Cfg(transport="lite", version=spec.server_version, fragment_size=spec.fragment_size, resend_timeout=spec.resend_timeout,
+                 resend_limit=spec.resend_limit, ping_timeout=spec.ping_timeout)
+    ES, S = name + "envs", name + "s"
+    b = _Builder()
+    b.add(env_line(ES, cfg, sess.settings_s), ("setup", None))
+    b.add("srv %s %s %s %d 1" % (S, ES, saddr[0], saddr[1]), ("setup", None))
+    for vpx in spec.vports:
+        vp, ty = (vpx, 10) if isinstance(vpx, int) else tuple(vpx)
+        b.add("bind %s %d %d %s" % (S, vp, ty, spec.key.hex() if getattr(spec, "key", None) else "none"), ("setup", None))
+    ss = b.side("s", S)
+    rnd = (1, 0xABCDEF01, 0x5A)       # multi_session pins the library's random draws; lite: initial unreliable id 1
+    log = sess.netlog
+    for i, e in enumerate(log):
+        k = e[0]
+        if ss.cut:
+            break
+        if k == "sopen" and e[3] == saddr:
+            b.add("link %s %s %d 1" % (S, e[2][0], e[2][1]), ("setup2", None))
+        elif k in ("swrite", "swfail") and e[2] == saddr:
+            _, t, local, remote, data = e
+            tk = ticks(t)
+            if tk > ss.last_tick:
+                b.advance(ss, "s", tk)
+            if k == "swfail":
+                continue
+            if _write_fate(log, i) == "break":
+                if ss.last_op is None:
+                    return None
+                if len(b.real["s"]) == ss.real_at_last_op:
+                    b.insert(ss.last_op, "link %s %s %d 0" % (S, remote[0], remote[1]), ("setup2", None))
+                else:
+                    b.truncate(ss, "s")
+                continue
+            b.real["s"].append((tk, "%s:%d" % remote, hx(data)))
+        elif k == "sread" and e[2] == saddr:
+            _, t, local, remote, data = e
+            tk = ticks(t)
+            b.advance(ss, "s", tk)
+            b.add("dgram %s %d %s %d %s %d %d %d" % (S, tk, remote[0], remote[1], hx(data), rnd[0], rnd[1], rnd[2]), ("op", "s", tk), ss)
+        elif k == "sclose" and saddr in (e[2], e[3]):
+            peer = e[3] if e[2] == saddr else e[2]
+            b.add("link %s %s %d 0" % (S, peer[0], peer[1]), ("setup2", None))
+        elif k == "sgone" and e[2] == saddr:
+            b.advance(ss, "s", ticks(e[1]))
+            b.add("link %s %s %d 0" % (S, e[3][0], e[3][1]), ("setup2", None))
+        elif k == "app" and e[2] == "s":
+            _, t, side, op, key, data = e
+            tk = ticks(t)
+            conn = "%s:%d:%d:%d" % (key[0][0], key[0][1], key[1], key[2])
+            b.advance(ss, "s", tk)
+            if op == "send":
+                b.add("send %s %d %s 0 %s" % (S, tk, conn, hx(data)), ("op", "s", tk), ss)
+            elif op == "done":
+                b.add("done %s %d %s" % (S, tk, conn), ("op", "s", tk), ss)
+    if not ss.cut:
+        b.advance(ss, "s", ticks(sess.end_time))
+    return b.lines, b.kinds, b.real, {"prefix": ["s"] if ss.prefix else []}
+
+
+def compare_server(drv, sess, same_tick_unordered=False, want_lines=False):
+    """replay of the server transport of a multi-client stream session: every write of the server (bytes, to which stream, instant,
+    order) must be the model's; same_tick_unordered: writes at one instant are compared as a set"""
+    bl = build_server(sess)
+    if bl is None:
+        return {"ok": True, "skipped": True, "diffs": []}
+    lines, kinds, real, info = bl
+    outs = drv.batch(lines)
+    tx, other, errs = l1_trace.model_stream(lines, kinds, outs)
+    diffs = [{"kind": "driver", "line": l[:160], "model": o} for l, o in errs]
+    r, m = real["s"], tx["s"]
+    if same_tick_unordered:
+        r, m = sorted(r), sorted(m)
+    for i, (x, y) in enumerate(zip(r, m)):
+        if x != y:
+            diffs.append({"kind": "tx", "index": i, "real": x, "model": y}); break
+    else:
+        if len(r) != len(m):
+            diffs.append({"kind": "tx-count", "real_n": len(r), "model_n": len(m), "first_extra": (r[len(m):] or m[len(r):])[0]})
+    # what the server's handlers received, per stream connection, must be what the model delivers there
+    rd, md = {}, {}
+    for e in sess.netlog:
+        if e[0] == "deliver" and e[2] == "s":
+            rd.setdefault("%s:%d" % (e[3][1], e[3][2]), []).append(hx(e[4]))
+    for tk, rest in other["s"]:
+        p = rest.split(" ")
+        if p[0] == "deliver":
+            a = p[1].split(":")
+            md.setdefault("%s:%s" % (a[0], a[1]), []).append(p[3])
+    if not info["prefix"]:
+        for a in set(rd) | set(md):
+            x, y = rd.get(a, []), md.get(a, [])
+            # a handler that is busy (or gone) leaves deliveries in the queue: the real list is a prefix of the model's
+            if y[:len(x)] != x:
+                diffs.append({"kind": "deliver", "peer": a, "real": x[:3], "model": y[:3], "real_n": len(x), "model_n": len(y)})
+    res = {"ok": not diffs, "diffs": diffs, "lines": len(lines), "stream": True, "prefix": info["prefix"],
+           "reads": sum(1 for l in lines if l.startswith("dgram ")), "writes": len(real["s"]),
+           "links": sum(1 for l in lines if l.startswith("link ") and l.endswith(" 1"))}
     if want_lines:
         res["trace"] = list(zip(lines, outs))
     return res
